@@ -3,14 +3,14 @@ CONSTANTS MaxN = 0
           Widths = {2}
           ChunkSz = 4
           MaxFiles = 0
-          Kind = "import"
-          GN = 40
-          GM = 0
-          GWidths = {2, 3, 4, 5}
+          Kind = "append"
+          GN = 60
+          GM = 60
+          GWidths = {2, 3, 4}
           PartSel = 0
-          SmallN = 40
-          SmallM = 0
-          SmallW = 5
+          SmallN = 60
+          SmallM = 60
+          SmallW = 4
           SampleMod = 1
           Salt = 0
 INVARIANTS Emit
